@@ -357,3 +357,93 @@ Qed.
 Example C13_nonvacuous_selected : forall base l,
   best (ext R) R_ext_ltb PInf (table C_RMSE 1 1 base (fun _ => l) ["fw-su_sh_wi"%string]) = Some "fw-su_sh_wi"%string.
 Proof. intros base l. reflexivity. Qed.
+
+(* ================================================================== the source text of the selection code
+   Generated/SelectGen.v ([gen_tables]) is written on every run by harness/translate_select.py from the Python `ast`
+   of _best_combination, _combination_selection_criteria, _get_error_metrics, neg_log_likelihood and
+   selection_criteria.  Proofs/SelectProofs.v shows what tables equal to [reference_tables] mean (Model/SelectShape.v
+   gives the meaning); here the regenerated tables are shown to BE the reference ([eq_refl]: the kernel compares the
+   two values), so each theorem below speaks about today's source text.  A source edit changes the generated file and
+   breaks these obligations - the last ones of the file, the earlier theorems stay counted. *)
+From Coq Require Import PrimFloat.
+From V Require Import Model.SelectShape Proofs.SelectProofs Proofs.SelectRProofs Model.NumF Model.SelCritF Generated.SelectGen.
+
+Theorem C13_source_tables_as_modelled : gen_tables = reference_tables.
+Proof. exact eq_refl. Qed.
+Print Assumptions C13_source_tables_as_modelled.
+
+(* the loop of _best_combination, as written today (start from +inf, `new < incumbent` alone, both fields
+   updated, nothing else, the name returned, over self.combinations), is the loop modelled by [best] *)
+Theorem C13_selection_loop_as_coded :
+  exists f : loop_fn, loop_model (t_loop gen_tables) = Some f /\
+    forall A lt top l, f A lt top l = best A lt top l.
+Proof. exact (best_loop_as_coded_l gen_tables eq_refl). Qed.
+Print Assumptions C13_selection_loop_as_coded.
+
+Theorem C13_coded_loop_is_argmin : forall f : loop_fn, loop_model (t_loop gen_tables) = Some f ->
+  forall l s, f Splits.xr Splits.xlt Splits.XPosInf l = Some s ->
+  exists c, In (s, c) l /\ c <> Splits.XNaN /\ c <> Splits.XPosInf /\ forall s' c', In (s', c') l -> Splits.xlt c' c = false.
+Proof. exact (coded_loop_is_argmin_l gen_tables eq_refl). Qed.
+Print Assumptions C13_coded_loop_is_argmin.
+
+(* selection_criteria() rebuilt from the expressions of the source text (guards of neg_log_likelihood, df_penalized and
+   its fallback, one expression per criterion, the normalisation rule) equals Model/SelCrit.v for every criterion
+   type, every input and every numeric instance (reals and binary64 alike) *)
+Theorem C13_coded_criterion_is_model : forall (N : num) x_ln x_sqrt x_pow two_pi tiny absorb ty c0 d0 loss tss n k,
+  tables_criterion N x_ln x_sqrt x_pow two_pi tiny absorb gen_tables ty c0 d0 loss tss n k
+  = selection_criteria N x_ln x_sqrt x_pow two_pi tiny absorb ty c0 d0 loss tss n k.
+Proof. exact (fun N x_ln x_sqrt x_pow two_pi tiny absorb =>
+                criterion_as_model_l N x_ln x_sqrt x_pow two_pi tiny absorb gen_tables eq_refl). Qed.
+Print Assumptions C13_coded_criterion_is_model.
+
+(* wRMSE = sqrt(wSSE / N), loss = wRMSE / self.wRMSE_base, num_coeffs = len(components), and the order in which the
+   seven arguments are passed and received *)
+Theorem C13_coded_combination_expressions : forall (N : num) x_ln x_sqrt x_pow two_pi tiny (l base : list (cfit N)) (len : N),
+  eval N x_ln x_sqrt x_pow two_pi tiny (env_wrmse N (sum_of N f_wsse l) (sum_of N f_n l)) (t_wrmse gen_tables) = wrmse N x_sqrt l /\
+  eval N x_ln x_sqrt x_pow two_pi tiny (env_loss N (wrmse N x_sqrt l) (wrmse N x_sqrt base)) (t_loss gen_tables)
+    = combo_loss N x_sqrt base l /\
+  eval N x_ln x_sqrt x_pow two_pi tiny (env_len N "components"%string len) (t_num_coeffs gen_tables) = len /\
+  t_components_src gen_tables = "combination.split('__')"%string /\
+  t_call_args gen_tables = ["loss"; "TSS"; "N"; "num_coeffs"; "criteria_type"; "penalty_multiplier"; "penalty_power"]%string /\
+  t_crit_args gen_tables = ["loss"; "TSS"; "N"; "num_coeffs"; "model_selection_criteria"; "penalty_multiplier"; "penalty_power"]%string.
+Proof. exact (fun N x_ln x_sqrt x_pow two_pi tiny =>
+                combination_as_model_l N x_ln x_sqrt x_pow two_pi tiny gen_tables eq_refl). Qed.
+Print Assumptions C13_coded_combination_expressions.
+
+Theorem C13_coded_constants_known : tables_consts_known gen_tables = true.
+Proof. exact (constants_known_l gen_tables eq_refl). Qed.
+Print Assumptions C13_coded_constants_known.
+
+(* hence the monotonicity theorems hold for the criterion as written in the source *)
+Theorem C13_coded_criterion_increasing_in_loss : forall c0 d0 tss1 tss2 n k l1 l2, 0 < n -> l1 < l2 -> 0 < l2 ->
+  R_ext_ltb (R_tables_criterion gen_tables C_BIC c0 d0 l1 tss1 n k) (R_tables_criterion gen_tables C_BIC c0 d0 l2 tss2 n k) = true.
+Proof. exact (coded_bic_increasing_in_loss_l gen_tables eq_refl). Qed.
+Print Assumptions C13_coded_criterion_increasing_in_loss.
+
+Theorem C13_coded_criterion_increasing_in_coefficients : forall c0 d0 tss1 tss2 n loss k1 k2, 1 <= n -> 0 <= c0 -> k1 <= k2 ->
+  R_ext_ltb (R_tables_criterion gen_tables C_BIC c0 d0 loss tss2 n k2) (R_tables_criterion gen_tables C_BIC c0 d0 loss tss1 n k1) = false.
+Proof. exact (coded_bic_increasing_in_coefficients_l gen_tables eq_refl). Qed.
+Print Assumptions C13_coded_criterion_increasing_in_coefficients.
+
+(* non-vacuity: loops of another shape are not accepted as [best]; the rebuilt criterion runs (binary64 instance) and
+   gives the model's number on a concrete input; the hypotheses of the monotonicity statement are satisfiable *)
+Example C13_nonvacuous_other_loops :
+  loop_model {| ls_init := InitPosInf; ls_iter := "self.combinations"; ls_crit_call := "self._combination_selection_criteria";
+                ls_cmp := CmpLe; ls_new_on_left := true; ls_extra_conditions := 0; ls_updates_name := true;
+                ls_updates_crit := true; ls_other_statements := 0; ls_returns_name := true |} = None /\
+  loop_model {| ls_init := InitPosInf; ls_iter := "self.combinations"; ls_crit_call := "self._combination_selection_criteria";
+                ls_cmp := CmpLt; ls_new_on_left := true; ls_extra_conditions := 1; ls_updates_name := true;
+                ls_updates_crit := true; ls_other_statements := 0; ls_returns_name := true |} = None.
+Proof. exact other_loops_are_not_best. Qed.
+
+Example C13_nonvacuous_coded_criterion :
+  tables_criterion FNum fln fsqrt fpow f_two_pi f_tiny f_absorb gen_tables C_BIC 0x1.eb851eb851eb8p-3%float 2%float
+    0x1.999999999999ap-1%float 1000%float 365%float 3%float
+  = f_selection_criteria C_BIC 0x1.eb851eb851eb8p-3%float 2%float 0x1.999999999999ap-1%float 1000%float 365%float 3%float /\
+  (exists v, f_selection_criteria C_BIC 0x1.eb851eb851eb8p-3%float 2%float 0x1.999999999999ap-1%float 1000%float 365%float 3%float = Fin v) /\
+  tables_criterion FNum fln fsqrt fpow f_two_pi f_tiny f_absorb gen_tables C_SABIC 1%float 2%float 0%float 1000%float 365%float 3%float = NInf.
+Proof. split; [vm_compute; reflexivity|split; [eexists; vm_compute; reflexivity|vm_compute; reflexivity]]. Qed.
+
+Example C13_nonvacuous_coded_monotone :
+  R_ext_ltb (R_tables_criterion gen_tables C_BIC (24/100) 2 (1/2) 1000 365 3) (R_tables_criterion gen_tables C_BIC (24/100) 2 1 1000 365 3) = true.
+Proof. apply (coded_bic_increasing_in_loss_l gen_tables eq_refl); lra. Qed.
